@@ -53,7 +53,7 @@ ENTRIES = ['run', 'call', 'evaluate', 'import']
 INTERLEAVINGS = ['unforced', 'zombie-first', 'grader-first', 'zombie-during-next', 'zombie-after-next', 'outer-interrupt-before-inner',
                  'zombie-between-numbering-and-recording-of-next']
 HISTORIES = ['fresh', 'two-earlier-runs', 'earlier-runs-then-clear_context']
-NEXT_KINDS = ['run-print', 'call-add', 'evaluate-expr', 'run-threaded', 'run-input', 'run-long']
+NEXT_KINDS = ['run-print', 'call-add', 'evaluate-expr', 'run-threaded', 'run-input', 'run-long', 'run-times-out-again']
 
 
 _LONG_CALL_SIZE = []
@@ -151,6 +151,7 @@ class Controller:
 
 _CTL = [None]
 EXTRA_NAMES = set()
+_THREADS_BEFORE_STEP = set()
 _WARMED_UP = []
 _INSTALLED = [False]
 _HAS_ABANDON = [False]
@@ -248,8 +249,36 @@ def runtime_feedbacks(report):
 
 def do_next(sbx, kind):
     """one later execution; returns a comparable record"""
+    try:
+        return _do_next(sbx, kind)
+    except Exception as e:
+        return {'raw': None, 'lines': None, 'result': None, 'exception': None, 'execution_record': None,
+                'the call itself raised': '%s: %s' % (type(e).__name__, str(e)[:120])}
+
+
+def _do_next(sbx, kind):
     sbx.clear_output()
     res = None
+    if kind == 'run-times-out-again':
+        # another program that never ends, under a short limit of its own
+        _THREADS_BEFORE_STEP.clear()
+        _THREADS_BEFORE_STEP.update(t.name for t in threading.enumerate())
+        sandbox = sbx.get_sandbox()
+        saved = sandbox.allowed_time
+        sandbox.allowed_time = 0.1
+        try:
+            sbx.run(code="print('again')\nwhile True:\n    pass", threaded=True)
+        finally:
+            sandbox.allowed_time = saved
+        exc = unwrap(sbx.get_exception())
+        record = {'raw': sbx.get_raw_output(), 'lines': list(sbx.get_output()), 'result': None,
+                  'exception': type(exc).__name__ if exc is not None else None, 'execution_record': None}
+        # (its thread is given the time to end: it belongs to this step, not to whatever is looked at next)
+        end = time.time() + 3
+        while time.time() < end and any(t.is_alive() and t.name not in _THREADS_BEFORE_STEP for t in threading.enumerate()
+                                        if type(t).__name__ == 'InterruptableThread'):
+            time.sleep(0.01)
+        return record
     if kind == 'run-print':
         sbx.run(code="print('next one')\nprint('two')", threaded=False)
     elif kind == 'call-add':
@@ -257,7 +286,14 @@ def do_next(sbx, kind):
     elif kind == 'evaluate-expr':
         res = sbx.evaluate('add(10, 5) * 2', threaded=False)
     elif kind == 'run-threaded':
-        sbx.run(code="print('threaded next')", threaded=True)
+        # (under a limit of its own that is not in doubt: setting a measurement up alone can take a tenth of a second)
+        sandbox = sbx.get_sandbox()
+        saved = sandbox.allowed_time
+        sandbox.allowed_time = 5
+        try:
+            sbx.run(code="print('threaded next')", threaded=True)
+        finally:
+            sandbox.allowed_time = saved
     elif kind == 'run-long':
         # long enough (tens of milliseconds) for a thread that is still running to get scheduled while this one is captured
         sbx.run(code="print('long start')\nacc = 0\nfor i in range(400000):\n    acc += i\nprint('long end', acc)", threaded=False)
@@ -1034,14 +1070,22 @@ def run(ctx):
             case = dict(c)
             case['allowed_time'] = rng.choice([0.05, 0.1, 0.2, 0.3])
             k = rng.sample(NEXT_KINDS, 3)
-            if k[0] == 'run-threaded':      # the first later execution must run in the grader thread to be gated
-                k[0], k[1] = k[1], k[0]
+            # the first later execution must run in the grader thread to be gated - and it runs before the abandoned thread is known
+            # to have ended, where one more timeout (and its feedback) would blur what is counted there
+            k.sort(key=lambda x: (x == 'run-times-out-again', x == 'run-threaded'))
             if c['interleaving'] == 'zombie-between-numbering-and-recording-of-next':
                 k = [rng.choice(['call-add', 'evaluate-expr'])] + [x for x in k if x not in ('call-add', 'evaluate-expr')][:2]
             case['next'] = k
             case['history'] = rng.choice(HISTORIES)
             # the environments switch the line tracer on by default: the interrupt then mostly lands inside the trace callback
             case['tracer'] = rng.choice(['none', 'native', 'native']) if c['interleaving'] in ('unforced', 'grader-first', 'zombie-after-next') else 'none'
+            if c['entry'] == 'import' and c.get('threaded_via') != 'attribute' and c['interleaving'] == 'unforced' and rng.random() < 0.7 and \
+                    c['program'] in ('busy-loop', 'print-loop', 'finite-but-long', 'nested-function-loop', 'loop-in-try-finally', 'print-first-then-loop'):
+                # (the other file is imported in the thread that runs the main file: the measurement is entered twice there)
+                case['tracer'] = 'coverage'
+                case['allowed_time'] = 0.6          # (setting the measurement up takes a while: the program is to be running when the time is up)
+                k = [x for x in k if x not in ('run-times-out-again', 'run-threaded')][:1] + ['run-times-out-again'] + [x for x in k if x != 'run-times-out-again'][1:2]
+                case['next'] = k
             if 'threaded_via' not in case:
                 case['threaded_via'] = rng.choice(['argument', 'attribute']) if c['entry'] != 'import' else 'argument'
             case['report'] = 'own' if rng.random() < 0.2 else 'default'
